@@ -6,24 +6,27 @@ ID = 'C08'
 HARNESSES = ['h_c06.cpp']
 LEVEL = 'model_checking'
 BUDGET = {'quick': 200, 'thorough': 1200}
-BOUNDS = {'quick': 'families: (a) append then mutate the caller\'s frame through 8 public mutators, (b) same after an indexed store, (c) the same frame object appended 2-3 times then a point/channel column added (by name and by frames) and one stored frame replaced, (d) one vector of frames handed to point() twice under two names while the caller keeps mutating it, (e) a frame of the data set itself handed back (append / beyond the end / in place) for data sets of 1..5 frames, so that the store reallocates while its argument is read; shape 2 points x 1 channel x 1 sub-frame; all floats symbolic',
+BOUNDS = {'quick': 'families: (a) append then mutate the caller\'s frame through 9 public mutators, (b) same after an indexed store, (c) the same frame object appended 2-3 times then a point/channel column added (by name and by frames) and one stored frame replaced, (d) one vector of frames handed to point() twice under two names while the caller keeps mutating it, (e) a frame of the data set itself handed back (append / beyond the end / in place) for data sets of 1..5 frames, so that the store reallocates while its argument is read, (f) gap frames created by one indexed store 3 beyond the end, then a point/channel column; shapes 2 points x 1 channel, analog-only (0 x 1) and points-only (2 x 0), 1 sub-frame; all floats symbolic',
           'thorough': 'same families on shapes up to 3x2x2, 2..4 repetitions'}
 OUTSIDE = 'aliasing through API not listed in the anchors (e.g. frames obtained from data().frames() copies)'
 ASSUMPTIONS = []
 
 def jobs(tier, seed):
     out = []
-    shapes = [(2, 1, 1)] if tier == 'quick' else [(2, 1, 1), (3, 2, 2), (1, 1, 2)]
+    shapes = [(2, 1, 1), (0, 1, 1), (2, 0, 1)] if tier == 'quick' else [(2, 1, 1), (3, 2, 2), (1, 1, 2), (0, 1, 1), (0, 2, 2), (2, 0, 1)]
     def J(name, **cfg): out.append({'entry': 'h_c08', 'harness': 'h_c06.cpp', 'name': name, 'cfg': cfg})
     for (P, C, S) in shapes:
         for fam in (0, 1):
-            for mut in range(8): J('handover-then-mutate-%s' % ('append' if fam == 0 else 'indexed'), family=fam, mutator=mut, P=P, C=C, S=S)
+            for mut in range(9): J('handover-then-mutate-%s' % ('append' if fam == 0 else 'indexed'), family=fam, mutator=mut, P=P, C=C, S=S)
         for times in ((2, 3) if tier == 'quick' else (2, 3, 4)):
             for col in (0, 1, 2, 3):
+                if col == 2 and C == 0: continue          # analog(name) needs existing sub-frames
                 for rep in ((0, 1) if col == 0 else (0,)): J('same-frame-%dx' % times, family=2, times=times, column=col, replace0=rep, P=P, C=C, S=S)
             J('same-vector-twice', family=3, times=times, P=P, C=C, S=S)
         for times in (1, 2, 3, 4, 5):
             for how in (0, 1, 2): J('store-own-frame', family=4, times=times, column=how, P=P, C=C, S=S)
+        for times in (1, 2):
+            if P: J('gap-frames-independent', family=5, times=times, column=0, P=P, C=C, S=S)      # (a channel column on gap frames is the known C07 finding)
     return out
 
 def obligations(sec, job, st):
@@ -49,6 +52,12 @@ def obligations(sec, job, st):
             if len(A2) == len(A):
                 if col in (0, 2): O += c06.frame_eq('same-frame/edit-one', G2, A2[0], 'frame 0 after storing another frame there') if col == 0 else []
                 for k in range(1, len(A)): O += c06.frame_eq('same-frame/others-independent', A[k], A2[k], 'frame %d after frame 0 was replaced' % k)
+    elif fam == 5:
+        B = obsmodel.parse_dump(sec['before'])['frames']; A = obsmodel.parse_dump(sec['after'])['frames']
+        O.append(Obl('gap-frames/count', len(A) != len(B), 'column add changes the frame count'))
+        for k in range(min(len(A), len(B))):
+            if cfg['column'] == 0: O += c06.frame_eq('gap-frames/one-column-per-frame', B[k], A[k], 'frame %d after one point column' % k, extra_point=dict(c06.ZERO_POINT, name=list(b'newp')))
+            else: O += c06.frame_eq('gap-frames/one-column-per-frame', B[k], A[k], 'frame %d after one channel column' % k, extra_channel=[{'data': 0, 'name': list(b'newa')} for _ in A[k]['subframes']])
     elif fam == 4:
         B = obsmodel.parse_dump(sec['before'])['frames']; A = obsmodel.parse_dump(sec['after'])['frames']; n = cfg['times']; how = cfg['column']
         src, dst, cnt = ((0, n, n + 1), (n - 1, n + 1, n + 2), (0, n - 1, n))[how]
